@@ -13,6 +13,7 @@ import (
 	"time"
 
 	"github.com/mycoria/mycoria/config"
+	"github.com/mycoria/mycoria/frame"
 	"github.com/mycoria/mycoria/m"
 	"github.com/mycoria/mycoria/peering"
 
@@ -279,7 +280,32 @@ func (w *world) closeSome() {
 		}
 		t.closed = true
 	}
-	switch w.r.IntN(5) {
+	switch w.r.IntN(6) {
+	case 5:
+		// the connection dies silently: reads go on waiting, the next write fails - and both ends do write (a
+		// keep-alive, a forwarded frame)
+		w.trace = append(w.trace, fmt.Sprintf("writes-fail(%d<->%d: reads keep waiting)", n.idx, t.peer))
+		markBoth()
+		t.w.BreakWrites(errors.New("injected write error: connection timed out"))
+		ends := []*tracked{t}
+		for _, o := range w.nodes[t.peer].links {
+			if o.w == t.w {
+				ends = append(ends, o)
+			}
+		}
+		for k, e := range ends {
+			from := n
+			if k > 0 {
+				from = w.nodes[t.peer]
+			}
+			for j := 0; j < 2; j++ {
+				f, err := from.r.Inst.BuilderV.NewFrameV1(from.id.IP, e.link.Peer(), frame.RouterPing, nil, []byte("c16 frame for a dead connection"), nil)
+				if err == nil {
+					_ = e.link.Send(f)
+				}
+			}
+		}
+		w.res.Count("connections_that_died_silently", 1)
 	case 0:
 		w.trace = append(w.trace, fmt.Sprintf("close-local(%d: link to %d)", n.idx, t.peer))
 		markBoth()
@@ -594,6 +620,13 @@ func (w *world) quiesce() bool {
 			return false
 		}
 		for _, t := range pendingLinks() {
+			if !t.link.IsClosing() && t.w.FailedWrites(wire.AtoB) > 0 && t.w.FailedWrites(wire.BtoA) > 0 {
+				// both ends have written to the dead connection and got the I/O error back: there is nothing left
+				// for a link to notice - it keeps a connection it knows to be broken
+				w.res.Violate("link-keeps-registered-after-write-error", fmt.Sprintf("a link whose writes fail with an I/O error (%d and %d writes were refused) is not closing six seconds later and stays registered: %s; events: %s", t.w.FailedWrites(wire.AtoB), t.w.FailedWrites(wire.BtoA), describe(pendingLinks()), strings.Join(w.trace[max(0, len(w.trace)-5):], "; ")), map[string]any{"events": w.trace, "case_id": strings.Join(w.trace, ";")})
+				w.fail = true
+				return false
+			}
 			if !t.link.IsClosing() {
 				w.res.Inconcl("a link whose connection was closed did not start closing within 6s: %s events: %s", describe(pendingLinks()), strings.Join(w.trace[max(0, len(w.trace)-5):], "; "))
 				w.fail = true
